@@ -35,6 +35,12 @@ func (g *FnGen) Generate() (err error) {
 		v := g.mkVal(g.freshConst("p_"+p.Name(), g.D.sortOf(p.Type())), p.Type())
 		g.vals[p] = v
 		g.env[p.Name()] = v
+		if g.paramSet == nil {
+			g.paramSet = map[string]bool{}
+		}
+		if v.S == sortRef {
+			g.paramSet[v.T] = true
+		}
 		if i == 0 && fn.Signature.Recv() != nil {
 			g.env["recv"] = v
 		}
@@ -532,7 +538,7 @@ func (g *FnGen) instr(ins ssa.Instruction) {
 		for _, r := range x.Results {
 			rs = append(rs, g.val(r))
 		}
-		g.rets = append(g.rets, retInfo{pos: x.Pos(), guard: guard, results: rs, st: g.st.clone()})
+		g.rets = append(g.rets, retInfo{block: g.curBlock, idx: g.curIdx, pos: x.Pos(), guard: guard, results: rs, st: g.st.clone()})
 	case *ssa.Panic:
 		if g.C != nil && g.C.MayPanic {
 			return
@@ -575,6 +581,10 @@ func (g *FnGen) allocRef(name, guard string) string {
 		g.assume("true", not(sel(g.D.get(rt.entrySt, liveKey), r)), "alloc-not-live-at-entry")
 	}
 	rt.allAllocs = append(rt.allAllocs, r)
+	if rt.allocSet == nil {
+		rt.allocSet = map[string]bool{}
+	}
+	rt.allocSet[r] = true
 	g.st[liveKey] = g.def("live", g.D.heapSorts[liveKey], store(live, r, "true"))
 	return r
 }
@@ -642,16 +652,18 @@ func (g *FnGen) opaqueAddr(p *Place) string {
 	}
 	if p.Idx != "" {
 		g.D.declare("addr2:"+id, fmt.Sprintf("(declare-fun addr_%s (Ref (_ BitVec 64)) Ref)", id))
-		g.D.declare("addr2nn:"+id, fmt.Sprintf("(assert (forall ((r Ref) (i (_ BitVec 64))) (! (not (= (addr_%s r i) nil)) :pattern ((addr_%s r i)))))", id, id))
-		return fmt.Sprintf("(addr_%s %s %s)", id, p.Base, p.Idx)
+		t := fmt.Sprintf("(addr_%s %s %s)", id, p.Base, p.Idx)
+		g.assume("true", not("(= "+t+" nil)"), "addr-non-nil")
+		return t
 	}
 	if p.Base == "" {
 		g.D.declare("addr0:"+id, fmt.Sprintf("(declare-const addr_%s Ref)", id))
 		return "addr_" + id
 	}
 	g.D.declare("addr1:"+id, fmt.Sprintf("(declare-fun addr_%s (Ref) Ref)", id))
-	g.D.declare("addr1nn:"+id, fmt.Sprintf("(assert (forall ((r Ref)) (! (not (= (addr_%s r) nil)) :pattern ((addr_%s r)))))", id, id))
-	return fmt.Sprintf("(addr_%s %s)", id, p.Base)
+	t := fmt.Sprintf("(addr_%s %s)", id, p.Base)
+	g.assume("true", not("(= "+t+" nil)"), "addr-non-nil")
+	return t
 }
 
 func (g *FnGen) doIndexAddr(x *ssa.IndexAddr) {
